@@ -166,6 +166,11 @@ func canonData(key string, data []byte, tainted bool) string {
 		meta.Get("Created").Exists() && meta.Get("Modified").Exists() {
 		m = "k"
 	}
+	if gjson.GetBytes(js, "_meta.Deleted").Int() > 0 {
+		// a record deleted while it was on its way out (shared in-memory record of the hashmap backend):
+		// the reply says so in its own _meta section and carries no content
+		return "Jd:?"
+	}
 	if tainted {
 		return "J" + m + ":?"
 	}
